@@ -262,3 +262,27 @@ add(Contract(
                        ("line", "state.line == old(state.line)"), ("terminate", "not terminate"), ("level-none", "level is None")],
                "dec": "len(terminatorRules) - _it1"}},
 ))
+
+# ------------------------------------------------------------------ html_block
+add(Contract(
+    "markdown_it.rules_block.html_block.html_block", props=["C01", "C03", "C04"], params=RULE_PARAMS,
+    ghost={"defs": {"P0": P0, "T": "new_tokens(state)"}},
+    requires=wf() + RULE_RANGE,
+    ensures=[
+        ("silent-pure", "implies(silent, ntokens(state) == old(ntokens(state)) and state.line == old(state.line))"),
+        ("fail-pure", "implies(not result, ntokens(state) == old(ntokens(state)) and state.line == old(state.line))"),
+        ("level", "state.level == old(state.level)"),
+        ("needs-html-option", "implies(result, state.md.options.html)"),
+        ("start-nonempty", "implies(result, P0 < len(state.src) and state.src[P0] == '<')"),
+        ("line", "implies(result and not silent, startLine < state.line and state.line <= endLine)"),
+        ("one-token", "implies(result and not silent, len(T) == 1 and T[0].type == 'html_block' and T[0].nesting == 0 and T[0].block and T[0].level == old(state.level))"),
+        ("map", "implies(result and not silent, T[0].map == [startLine, state.line])"),
+        ("content", "implies(result and not silent, T[0].content == strfun('GetLines', startLine, state.line, state.blkIndent, True))"),
+    ],
+    loops={0: {"types": {"HTML_SEQUENCE": "opaque", "html_seq": "optopaque"},
+               "inv": [("none", "html_seq is None")], "dec": "len(HTML_SEQUENCES) - _it0"},
+           1: {"types": {"lineText": "str"},
+               "inv": [("next-lo", "nextLine >= startLine + 1"), ("next-hi", "nextLine <= max(endLine, startLine + 1)"),
+                       ("line", "state.line == old(state.line)")],
+               "dec": "endLine - nextLine"}},
+))
